@@ -98,6 +98,15 @@ Eval(t, cur, H, log, fuel) ==
          IF IsSkip(c.v) THEN R(SKIP, c.log) ELSE IF take THEN Eval(t.b[1], cur, H, c.log, fuel) ELSE R(cur, c.log)
     [] l = "els" ->      \* chain |> x : first arm whose condition holds; x is either a further arm or the default
          ElseEval(t, cur, H, log, fuel).r
+    [] l \in {"pfa", "pfb", "sfa"} ->      \* a` x  /  x `a : resolve the name (like an identifier), then evaluate the operand, then apply
+         LET f == IdValue(IF l = "pfb" THEN "b" ELSE "a", cur, H, log)
+             x == Eval(t.a[1], cur, H, f.log, fuel) IN
+         ApplyV(f.v, x.v, FALSE, H, x.log, fuel)
+    [] l = "ifa" ->                        \* x `a` y : resolve the name, evaluate x then y, apply the name to the list of both
+         LET f == IdValue("a", cur, H, log)
+             x == Eval(t.a[1], cur, H, f.log, fuel)
+             y == Eval(t.b[1], cur, H, x.log, fuel) IN
+         ApplyV(f.v, IF IsSkip(x.v) \/ IsSkip(y.v) THEN SKIP ELSE [t |-> "list", v |-> <<x.v, y.v>>], FALSE, H, y.log, fuel)
     [] k = "pre" ->
          LET x == Eval(t.a[1], cur, H, log, fuel)  v == x.v IN
          IF IsSkip(v) THEN R(SKIP, x.log)
